@@ -372,4 +372,285 @@ theorem coreOps_clean (cfg : Cfg) (name : String) (f : OpFn) (h : coreOpByName c
     | exact opNot_clean | exact opAny_clean | exact opAll_clean | exact opModpow_clean
     | exact opMod_clean
 
+/-! ### `OpWf` -/
+
+theorem OpWf.of {f : OpFn}
+    (h : ∀ flags m args c r, args.wf = true → f flags m args c = .ok r → r.2.1.wf = true ∧ CtrLe c r.2.2) :
+    OpWf f := h
+
+theorem wf_ite (p : Prop) [Decidable p] : (if p then Val.one else Val.nil).wf = true := by
+  split <;> decide
+
+theorem first_wf {v r : Val} (hw : v.wf = true) (h : first v = .ok r) : r.wf = true := by
+  cases v with
+  | atom b i => cases h
+  | pair l r' => cases h; exact (Val.wf_pair.1 hw).1
+
+theorem rest_wf {v r : Val} (hw : v.wf = true) (h : rest v = .ok r) : r.wf = true := by
+  cases v with
+  | atom b i => cases h
+  | pair l r' => cases h; exact (Val.wf_pair.1 hw).2
+
+/-- one case of `fun_cases op …` in the proof of `OpWf op`: failure cases, boolean results, and results
+allocated last -/
+syntax "op_wf_case " ident : tactic
+macro_rules
+  | `(tactic| op_wf_case $h:ident) => `(tactic|
+    first
+    | (cases $h:ident; done)
+    | (cases $h:ident; exact ⟨wf_ite _, CtrLe.refl _⟩)
+    | (cases $h:ident; exact allocNumber_wf ‹_›)
+    | (cases $h:ident; exact allocAtom_wf ‹_›)
+    | exact newAtomAndCost_wf $h)
+
+theorem opIf_wf : OpWf opIf := by
+  refine .of fun flags m args c r hw h => ?_
+  revert h
+  fun_cases opIf flags m args c <;> intro h
+  · cases h
+  · cases h
+    have := getArgs3_wf hw ‹_›
+    refine ⟨?_, CtrLe.refl _⟩
+    show Val.wf (if _ then _ else _) = true
+    split
+    · exact this.2.2
+    · exact this.2.1
+
+theorem opCons_wf : OpWf opCons := by
+  refine .of fun flags m args c r hw h => ?_
+  revert h
+  fun_cases opCons flags m args c <;> intro h
+  · cases h
+  · cases h
+  · cases h
+    have := getArgs2_wf hw ‹_›
+    obtain ⟨rfl, hc⟩ := allocPair_wf ‹_›
+    exact ⟨Val.wf_pair.2 this, hc⟩
+
+theorem opFirst_wf : OpWf opFirst := by
+  refine .of fun flags m args c r hw h => ?_
+  revert h
+  fun_cases opFirst flags m args c <;> intro h
+  · cases h
+  · cases h
+  · cases h; exact ⟨first_wf (getArgs1_wf hw ‹_›) ‹_›, CtrLe.refl _⟩
+
+theorem opRest_wf : OpWf opRest := by
+  refine .of fun flags m args c r hw h => ?_
+  revert h
+  fun_cases opRest flags m args c <;> intro h
+  · cases h
+  · cases h
+  · cases h; exact ⟨rest_wf (getArgs1_wf hw ‹_›) ‹_›, CtrLe.refl _⟩
+
+theorem opListp_wf : OpWf opListp := by
+  refine .of fun flags m args c r hw h => ?_
+  revert h
+  fun_cases opListp flags m args c <;> intro h <;> op_wf_case h
+
+theorem opRaise_wf : OpWf opRaise := by
+  refine .of fun flags m args c r hw h => ?_
+  cases h
+
+theorem opEq_wf : OpWf opEq := by
+  refine .of fun flags m args c r hw h => ?_
+  revert h
+  fun_cases opEq flags m args c <;> intro h <;> op_wf_case h
+
+theorem opGr_wf (cfg : Cfg) : OpWf (opGr cfg) := by
+  refine .of fun flags m args c r hw h => ?_
+  revert h
+  fun_cases opGr cfg flags m args c <;> intro h
+  · cases h
+  · rename_i hfast
+    cases h
+    loop_prep
+    split at hfast
+    · split at hfast
+      · cases hfast; exact ⟨wf_ite _, CtrLe.refl _⟩
+      · cases hfast
+    · cases hfast
+  · cases h
+  · cases h
+  · cases h; exact ⟨wf_ite _, CtrLe.refl _⟩
+
+theorem opGrBytes_wf : OpWf opGrBytes := by
+  refine .of fun flags m args c r hw h => ?_
+  revert h
+  fun_cases opGrBytes flags m args c <;> intro h <;> op_wf_case h
+
+theorem opStrlen_wf : OpWf opStrlen := by
+  refine .of fun flags m args c r hw h => ?_
+  revert h
+  fun_cases opStrlen flags m args c <;> intro h <;> op_wf_case h
+
+theorem opAsh_wf : OpWf opAsh := by
+  refine .of fun flags m args c r hw h => ?_
+  revert h
+  fun_cases opAsh flags m args c <;> intro h <;> op_wf_case h
+
+theorem opLsh_wf : OpWf opLsh := by
+  refine .of fun flags m args c r hw h => ?_
+  revert h
+  fun_cases opLsh flags m args c <;> intro h <;> op_wf_case h
+
+theorem opLognot_wf : OpWf opLognot := by
+  refine .of fun flags m args c r hw h => ?_
+  revert h
+  fun_cases opLognot flags m args c <;> intro h <;> op_wf_case h
+
+theorem opNot_wf : OpWf opNot := by
+  refine .of fun flags m args c r hw h => ?_
+  revert h
+  fun_cases opNot flags m args c <;> intro h <;> op_wf_case h
+
+theorem opAny_wf : OpWf opAny := by
+  refine .of fun flags m args c r hw h => ?_
+  revert h
+  fun_cases opAny flags m args c <;> intro h <;> op_wf_case h
+
+theorem opAll_wf : OpWf opAll := by
+  refine .of fun flags m args c r hw h => ?_
+  revert h
+  fun_cases opAll flags m args c <;> intro h <;> op_wf_case h
+
+theorem binopReduction_wf (name : String) (init : Int) (f : Int → Int → Int) :
+    OpWf (binopReduction name init f) := by
+  refine .of fun flags m args c r hw h => ?_
+  revert h
+  fun_cases binopReduction name init f flags m args c <;> intro h <;> op_wf_case h
+
+theorem opLogand_wf : OpWf opLogand := binopReduction_wf _ _ _
+theorem opLogior_wf : OpWf opLogior := binopReduction_wf _ _ _
+theorem opLogxor_wf : OpWf opLogxor := binopReduction_wf _ _ _
+
+theorem opSha256_wf (cfg : Cfg) : OpWf (opSha256 cfg) := by
+  refine .of fun flags m args c r hw h => ?_
+  simp only [opSha256_eq] at h
+  split at h
+  · exact newAtomAndCost_wf h
+  · rcases sha256Fast_cases cfg c args (sha256Costs flags).1 (sha256Costs flags).2.1 (sha256Costs flags).2.2
+      with hf | ⟨cost, val, hf⟩
+    · simp only [hf] at h
+      split at h
+      · cases h
+      · exact newAtomAndCost_wf h
+    · simp only [hf] at h
+      split at h
+      · cases h
+      · exact newAtomAndCost_wf h
+
+theorem opConcat_wf : OpWf opConcat := by
+  refine .of fun flags m args c r hw h => ?_
+  revert h
+  fun_cases opConcat flags m args c <;> intro h
+  · cases h
+  · cases h
+  · cases h
+    exact newConcat_wf (concatLoop_inv ‹_› (argList_wf hw) ConcatInv.nil) ‹_›
+
+theorem opSubstr_wf : OpWf opSubstr := by
+  refine .of fun flags m args c r hw h => ?_
+  revert h
+  fun_cases opSubstr flags m args c <;> intro h <;>
+    first
+    | (cases h; done)
+    | (cases h; exact newSubstr_wf ‹_›)
+
+theorem opAdd_wf (cfg : Cfg) : OpWf (opAdd cfg) := by
+  refine .of fun flags m args c r hw h => ?_
+  simp only [opAdd_eq] at h
+  split at h
+  · cases h
+  · split at h <;> op_wf_case h
+  · split at h
+    · cases h
+    · split at h <;> op_wf_case h
+
+theorem opSubtract_wf (cfg : Cfg) : OpWf (opSubtract cfg) := by
+  refine .of fun flags m args c r hw h => ?_
+  simp only [opSubtract_eq] at h
+  split at h
+  · cases h
+  · split at h <;> op_wf_case h
+  · split at h
+    · cases h
+    · split at h <;> op_wf_case h
+
+theorem opMultiply_wf (cfg : Cfg) : OpWf (opMultiply cfg) := by
+  refine .of fun flags m args c r hw h => ?_
+  simp only [opMultiply_eq] at h
+  split at h
+  · cases h
+  · split at h <;> op_wf_case h
+
+theorem opDivWith_wf (intA : Val → String → Except Err (Int × Nat)) : OpWf (opDivWith intA) := by
+  refine .of fun flags m args c r hw h => ?_
+  revert h
+  fun_cases opDivWith intA flags m args c <;> intro h <;> op_wf_case h
+
+theorem opModWith_wf (intA : Val → String → Except Err (Int × Nat)) : OpWf (opModWith intA) := by
+  refine .of fun flags m args c r hw h => ?_
+  revert h
+  fun_cases opModWith intA flags m args c <;> intro h <;> op_wf_case h
+
+theorem opDivmodWith_wf (intA : Val → String → Except Err (Int × Nat)) : OpWf (opDivmodWith intA) := by
+  refine .of fun flags m args c r hw h => ?_
+  revert h
+  fun_cases opDivmodWith intA flags m args c <;> intro h <;>
+    first
+    | (cases h; done)
+    | (cases h
+       obtain ⟨hq, hc1⟩ := allocNumber_wf ‹allocNumber c (Int.fdiv _ _) = .ok _›
+       obtain ⟨hr, hc2⟩ := allocNumber_wf ‹allocNumber _ (Int.fmod _ _) = .ok _›
+       obtain ⟨rfl, hc3⟩ := allocPair_wf ‹_›
+       exact ⟨Val.wf_pair.2 ⟨hq, hr⟩, (hc1.trans hc2).trans hc3⟩)
+
+theorem opModpowWith_wf (intA : Val → String → Except Err (Int × Nat)) : OpWf (opModpowWith intA) := by
+  refine .of fun flags m args c r hw h => ?_
+  revert h
+  fun_cases opModpowWith intA flags m args c <;> intro h <;> op_wf_case h
+
+theorem OpWf.ite {f g : OpFn} (bit : Nat) (hf : OpWf f) (hg : OpWf g) :
+    OpWf (fun flags m a c => if hasFlag flags bit then f flags m a c else g flags m a c) := by
+  intro flags m args c r hw h
+  by_cases hb : hasFlag flags bit = true
+  · simp only [hb, ↓reduceIte] at h; exact hf flags m args c r hw h
+  · simp only [hb, ↓reduceIte, Bool.false_eq_true] at h; exact hg flags m args c r hw h
+
+theorem opDiv_wf : OpWf opDiv := OpWf.ite _ (opDivWith_wf _) (opDivWith_wf _)
+theorem opMod_wf : OpWf opMod := OpWf.ite _ (opModWith_wf _) (opModWith_wf _)
+theorem opDivmod_wf : OpWf opDivmod := OpWf.ite _ (opDivmodWith_wf _) (opDivmodWith_wf _)
+theorem opModpow_wf : OpWf opModpow := OpWf.ite _ (opModpowWith_wf _) (opModpowWith_wf _)
+
+theorem opUnknown_wf (op : Bytes) : OpWf (opUnknown op) := by
+  refine .of fun flags m args c r hw h => ?_
+  obtain ⟨base, mult, _, _, _, hf, _⟩ := opUnknown_budget_general op flags m args c r h
+  unfold unknownFinish at hf
+  by_cases hnm : newModel flags = true
+  · simp only [hnm, ↓reduceIte] at hf
+    split at hf
+    · cases hf
+    · split at hf
+      · cases hf
+      · cases hf; exact ⟨Val.wf_nil, CtrLe.refl _⟩
+  · simp only [hnm, ↓reduceIte, Bool.false_eq_true] at hf
+    split at hf
+    · cases hf
+    · cases hf; exact ⟨Val.wf_nil, CtrLe.refl _⟩
+
+/-- results of every operator of the core table are well-formed and the counters only grow -/
+theorem coreOps_wf (cfg : Cfg) (name : String) (f : OpFn) (h : coreOpByName cfg name = some f) :
+    OpWf f := by
+  unfold coreOpByName at h
+  split at h <;> (try cases h) <;> first
+    | exact opIf_wf | exact opCons_wf | exact opFirst_wf | exact opRest_wf
+    | exact opListp_wf | exact opRaise_wf | exact opEq_wf | exact opGrBytes_wf
+    | exact opSha256_wf _ | exact opSubstr_wf | exact opStrlen_wf | exact opConcat_wf
+    | exact opAdd_wf _ | exact opSubtract_wf _ | exact opMultiply_wf _ | exact opDiv_wf
+    | exact opDivmod_wf | exact opGr_wf _ | exact opAsh_wf | exact opLsh_wf
+    | exact opLogand_wf | exact opLogior_wf | exact opLogxor_wf | exact opLognot_wf
+    | exact opNot_wf | exact opAny_wf | exact opAll_wf | exact opModpow_wf
+    | exact opMod_wf
+
 end Clvm.Interp
